@@ -181,7 +181,7 @@ def real_case(job):
 TRACE_KEYS = ("tid", "req", "pats", "limit", "res", "w", "short", "greedy")
 
 
-def judge(ctx, events, label, stats, chunk=4000):
+def judge(ctx, events, label, stats, chunk=25000):
     """all verdicts come from SeqCompletionTrace.tla"""
     from .. import trace
 
@@ -191,12 +191,15 @@ def judge(ctx, events, label, stats, chunk=4000):
     stats["timeouts"] += sum(1 for e in events if e["res"] == "timeout")
     ok = [e for e in events if e["res"] in ("seq", "impossible")]
     parts = [ok[i : i + chunk] for i in range(0, len(ok), chunk)]
-    results = common.pmap(_validate_part, parts, procs=min(8, max(1, len(parts))), chunksize=1) if len(parts) >= 8 else [_validate_part(p) for p in parts]
+    results = common.pmap(_validate_part, parts, procs=min(6, max(1, len(parts))), chunksize=1) if len(parts) >= 8 else [_validate_part(p) for p in parts]
     for part, (bad, summ) in zip(parts, results):
         ctx.tlc_runs.append(dict(summ, name="trace validation (SeqCompletionTrace, %s)" % label))
         ctx.coverage["states"] = ctx.coverage.get("states", 0) + summ["distinct_states"]
         ctx.coverage["transitions"] = ctx.coverage.get("transitions", 0) + summ["states_generated"]
         for b in bad:
+            if not b["alarm"]:
+                stats["out_of_domain"] += 1
+                continue
             e = part[b["line"] - 1]
             sig = SIG_D6 if b["dev"] else "C19|" + b["clause"]
             what = "make_matching_sequence(%r, %s, depth_limit=%s%s) -> %s; clause %s (spec: %s)%s" % (
@@ -255,7 +258,7 @@ def selftest_binding(ctx, sample_events):
     finally:
         symbol_re.make_matching_sequence = orig
     bad, _ = trace.validate("SeqCompletionTrace", [{k: e[k] for k in TRACE_KEYS if k in e} for e in evs if e["res"] in ("seq", "impossible")])
-    hit = sum(1 for b in bad if not b["dev"])
+    hit = sum(1 for b in bad if b["alarm"] and not b["dev"])
     if hit == 0:
         raise RuntimeError("binding self-test failed: a completion with a duplicated symbol was not flagged")
     # corrupted fields
@@ -266,7 +269,7 @@ def selftest_binding(ctx, sample_events):
     rec = {k: e[k] for k in TRACE_KEYS if k in e and k not in ("short", "greedy")}
     probes = [dict(rec, tid=1, w=rec["w"] + [rec["w"][-1]]), dict(rec, tid=2, res="impossible", w=[]), dict(rec, tid=3)]
     pbad, _ = trace.validate("SeqCompletionTrace", probes)
-    got = sorted((b["tid"], b["clause"]) for b in pbad)
+    got = sorted((b["tid"], b["clause"]) for b in pbad if b["alarm"])
     if [t for t, _ in got] != [1, 2]:
         raise RuntimeError("trace binding self-test failed: %r" % (got,))
     return {"in-process mutant (result with an extra symbol) flagged on cases": hit, "corrupted records": got}
@@ -274,7 +277,7 @@ def selftest_binding(ctx, sample_events):
 
 # ---------------------------------------------------------------------------- run
 def run(ctx):
-    stats = {"judged": 0, "returned": 0, "impossible": 0, "nontrivial": 0, "alarms": 0, "timeouts": 0}
+    stats = {"judged": 0, "returned": 0, "impossible": 0, "nontrivial": 0, "alarms": 0, "timeouts": 0, "out_of_domain": 0}
     thm = tlc.run("SeqCompletion", "mc/SeqCompletion.cfg" if ctx.quick else "mc/SeqCompletion_thorough.cfg")
     ctx.add_tlc(thm, "search machine + theorems (MachineSound, MachineMinimal, DeclAgrees, GreedyNeverBetter, StateIsFoldOfW)")
     enum_events = []
@@ -322,7 +325,7 @@ def run(ctx):
             "real_cases": len(real_events),
             "returned": stats["returned"],
             "impossible": stats["impossible"],
-            "out_of_scope": {"calls stopped by the time guard (20 s)": stats["timeouts"]},
+            "out_of_scope": {"calls stopped by the time guard (20 s)": stats["timeouts"], "calls with a pattern outside the property's domain ('$' before something mandatory)": stats["out_of_domain"]},
             "spec_disagreements": 0,
             "violating_cases": stats["alarms"],
             "binding_selftest": st,
@@ -349,4 +352,4 @@ def replay(case):
     if ev["res"] in ("crash", "timeout"):
         return {"violations": [ev] if ev["res"] == "crash" else [], "event": ev}
     bad, _ = trace.validate("SeqCompletionTrace", [{k: ev[k] for k in TRACE_KEYS if k in ev}])
-    return {"violations": bad, "event": ev}
+    return {"violations": [b for b in bad if b["alarm"]], "event": ev}
